@@ -18,10 +18,10 @@ def Tok.key (a : Tok V) : Int × Int := Gen.sortKey a.s a.e
 /-- `key a < key b` on pairs, as Python compares tuples -/
 def keyLt (x y : Int × Int) : Bool := decide (x.1 < y.1) || (decide (x.1 = y.1) && decide (x.2 < y.2))
 
-/-- stable insertion: `x` goes after everything whose key is not greater -/
+/-- stable insertion: `x` (which came first) stays before everything whose key is not smaller -/
 def insertTok (x : Tok V) : List (Tok V) → List (Tok V)
   | [] => [x]
-  | y :: ys => if keyLt x.key y.key then x :: y :: ys else y :: insertTok x ys
+  | y :: ys => if keyLt y.key x.key then y :: insertTok x ys else x :: y :: ys
 
 /-- `Token.sort`: `sorted(tokens, key=(start, -len))`, stable -/
 def sortToks : List (Tok V) → List (Tok V)
